@@ -136,19 +136,44 @@ pub struct Reject;
 
 const PROBE_LIMIT: usize = 3000;
 
+thread_local! {
+    /// VM instructions executed by the parties of the current case (a deterministic measure of work)
+    static WORK: std::cell::Cell<u64> = std::cell::Cell::new(0);
+}
+
+/// run `f` on `xs` and add the instructions it executed to the case's work counter
+fn metered<T>(xs: &mut Xstate, f: impl FnOnce(&mut Xstate) -> T) -> T {
+    let before = xs.verif_insn_meter() as u64;
+    let r = f(xs);
+    let after = xs.verif_insn_meter() as u64;
+    WORK.with(|w| w.set(w.get() + after.saturating_sub(before)));
+    r
+}
+
+/// An enumerated case stops taking further (position, kind) pairs once its parties have executed
+/// this many VM instructions. Without it one sampled base program with a slow history (every twin
+/// replays the history, up to 20 000 instructions a source, three twins per pair, ~2 000 pairs)
+/// cost 70 s of wall clock and was reported as a hang by the supervisor. A pure function of the
+/// case, so replay and minimisation see the same pairs.
+const ENUM_WORK_BUDGET: u64 = 8_000_000;
+/// what booting one party is charged (a boot costs about as much wall clock as a few hundred
+/// interpreted instructions)
+const BOOT_WORK: u64 = 300;
+
 fn submit(xs: &mut Xstate, style: Style, src: &str) -> Xresult {
-    match style {
+    metered(xs, |xs| match style {
         Style::Eval => xs.eval(src),
         Style::CompileRun => xs.compile(src).and_then(|_| xs.run()),
-    }
+    })
 }
 
 fn prepare(case: &Case) -> Xstate {
     let cfg = BootCfg { recording: case.recording, intercept_emit: true, input: case.input.clone(), d2: false };
     let mut xs = boot(&cfg);
+    WORK.with(|w| w.set(w.get() + BOOT_WORK));
     for h in &case.history {
         xs.set_insn_limit(Some(20_000)).unwrap();
-        let _ = xs.eval(h);
+        let _ = metered(&mut xs, |xs| xs.eval(h));
     }
     xs.set_insn_limit(None).unwrap();
     xs
@@ -226,7 +251,13 @@ fn one0(case: &Case, r: &Rejected, st: &mut Stats) -> Result<bool, Violation> {
     let mut c = prepare(case);
     let arm = |xs: &mut Xstate| match &r.limit {
         Some((k, v)) if k == "insn" => xs.set_insn_limit(Some(*v)).unwrap(),
-        Some((k, v)) if k == "stack" => xs.set_stack_limit(Some(xs.verif_data_len() + *v)).unwrap(),
+        Some((k, v)) if k == "stack" => {
+            // the stack fault is armed on top of the ordinary instruction budget: without it a
+            // generated loop with a huge bound ran for minutes at build time (and, recorded, for
+            // gigabytes), which the supervisor reported as a hang
+            xs.set_insn_limit(Some(PROBE_LIMIT)).unwrap();
+            xs.set_stack_limit(Some(xs.verif_data_len() + *v)).unwrap()
+        }
         _ => xs.set_insn_limit(Some(PROBE_LIMIT)).unwrap(),
     };
     let disarm = |xs: &mut Xstate| {
@@ -234,7 +265,7 @@ fn one0(case: &Case, r: &Rejected, st: &mut Stats) -> Result<bool, Violation> {
         xs.set_stack_limit(None).unwrap();
     };
     arm(&mut c);
-    let built = c.compile(&text);
+    let built = metered(&mut c, |c| c.compile(&text));
     disarm(&mut c);
     let before = shape(&a);
     st.event(&r.kind, split_tokens(&r.prefix).len());
@@ -388,6 +419,8 @@ fn limit_for(kind: &str) -> Option<(String, usize)> {
     }
 }
 
+/// every cut position x every failing kind of the base program, in an order that strides through
+/// the product (so that an enumeration cut short by ENUM_WORK_BUDGET still spans positions and kinds)
 fn enumerated(case: &Case) -> Vec<Rejected> {
     let n = split_tokens(&case.base).len();
     let mut v = Vec::new();
@@ -397,7 +430,22 @@ fn enumerated(case: &Case) -> Vec<Rejected> {
             v.push(Rejected { prefix: prefix.clone(), kind: kind.to_string(), fail: fail.to_string(), trailing: trailing.clone(), limit: limit_for(kind) });
         }
     }
-    v
+    fn gcd(a: usize, b: usize) -> usize {
+        if b == 0 { a } else { gcd(b, a % b) }
+    }
+    let len = v.len();
+    let mut stride = 7919 % len.max(1);
+    while len > 1 && (stride == 0 || gcd(stride, len) != 1) {
+        stride += 1;
+    }
+    let mut slots: Vec<Option<Rejected>> = v.into_iter().map(Some).collect();
+    let mut out = Vec::with_capacity(len);
+    let mut i = 0;
+    for _ in 0..len {
+        out.push(slots[i].take().expect("stride is coprime with the length"));
+        i = (i + stride) % len;
+    }
+    out
 }
 
 fn standard_probes(env: &Env) -> Vec<String> {
@@ -532,7 +580,12 @@ impl Engine for Reject {
     fn execute(case: &Case, st: &mut Stats) -> Outcome {
         if case.enumerate {
             st.count("probe.enumerated_bases");
+            WORK.with(|w| w.set(0));
             for r in enumerated(case) {
+                if WORK.with(|w| w.get()) > ENUM_WORK_BUDGET {
+                    st.count("probe.enumeration_cut_by_work_budget");
+                    break;
+                }
                 st.count("enumerated_rejections");
                 match one(case, &r, st) {
                     Ok(true) => st.nontrivial = true,
@@ -555,7 +608,11 @@ impl Engine for Reject {
         let mut out = Vec::new();
         if case.enumerate {
             let mut st = Stats::new();
+            WORK.with(|w| w.set(0));
             for r in enumerated(case) {
+                if WORK.with(|w| w.get()) > ENUM_WORK_BUDGET {
+                    break;
+                }
                 if one(case, &r, &mut st).is_err() {
                     let mut c = case.clone();
                     c.enumerate = false;
